@@ -361,6 +361,16 @@ def enumeration(rnd, acc, sample=False):
             if outs != ref:
                 HUB.violation("C15", "verdict-depends-on-enumeration-order", "rule outcomes differ between two scans of the same tree", {"rules": rules, "ref": ref, "outs": outs})
             acc.nontrivial({"t": spec, "n": sh.count})
+        # hand-written regex exclusions (back-reference to the own group, inline flag): any order, same architecture
+        rex = [r".*/(\w)\1\.py$", r".*/(util|h)(/.*)?$", r".*/m(\d)\1?\.py$"]
+        states = []
+        for order in (rex, rex[::-1], rex[1:] + rex[:1]):
+            get_evaluable_architecture(root, root, exclusions=(), regex_exclusions=tuple(order))
+            states.append(HUB.scan_events[-1].state)
+            acc.evaluated()
+        acc.count("regex_exclusion_tuple_permutations")
+        if len(set(states)) > 1:
+            HUB.violation("C15", "exclusion-order-dependent:regex", "permuting the regex exclusion tuple changed the architecture", {"regex_exclusions": rex})
         if excl:
             get_evaluable_architecture(root, root, exclusions=excl)
             s1 = HUB.scan_events[-1]
